@@ -228,11 +228,13 @@ fn run_history<S: StorageData>(
     len: usize,
     rep: &mut Report,
     trace: &mut Vec<String>,
+    progress: &dyn Fn(&str),
 ) -> Option<Viol> {
     let mut model = Model::default();
     let mut g = Gen::new(seed, weights_for(prop));
     let pr = probe();
     for step in 0..len {
+        progress(&format!("step {step}"));
         if g.rng.chance(1, 9) {
             // a mutable transaction that is rolled back: the state (indexes included) must not change
             let k = 1 + g.rng.usize(5);
@@ -334,7 +336,7 @@ impl CaseEngine for Hist {
     fn case_timeout_s(&self, _args: &Args) -> u64 {
         180
     }
-    fn run_case(&self, args: &Args, case: usize, rep: &mut Report, _p: &dyn Fn(&str)) {
+    fn run_case(&self, args: &Args, case: usize, rep: &mut Report, progress: &dyn Fn(&str)) {
         let seed = derive(args.u64("seed", 1), &[tag(self.prop), tag("hist"), case as u64]);
         let len = args.u64("len", if args.thorough() { 160 } else { 70 }) as usize;
         let scratch = args.str("scratch", &format!("/verif/scratch/hist_{}", self.prop));
@@ -346,7 +348,7 @@ impl CaseEngine for Hist {
         let r = panicmon::catch(|| {
             let any = open(kind, &path).map_err(|e| viol("open_failed", format!("{e:?}")));
             match any {
-                Ok(mut any) => with_db!(&mut any, db, run_history(db, self.prop, seed, len, rep, &mut trace)),
+                Ok(mut any) => with_db!(&mut any, db, run_history(db, self.prop, seed, len, rep, &mut trace, progress)),
                 Err(v) => Some(v),
             }
         });
